@@ -609,6 +609,23 @@ def cpython_verdict(seen):
   return ("compiles",)
 
 
+def ast_depth(seen):
+  """Nesting depth of the text's AST (iterative; 0 if it does not parse)."""
+  try:
+    with warnings.catch_warnings():
+      warnings.simplefilter("ignore")
+      tree = ast.parse(seen)
+  except Exception:  # pylint: disable=broad-except
+    return 0
+  depth = 0
+  todo = [(tree, 1)]
+  while todo:
+    n, d = todo.pop()
+    depth = max(depth, d)
+    todo.extend((c, d + 1) for c in ast.iter_child_nodes(n))
+  return depth
+
+
 def augmented_breaks(seen):
   """True if pytype's own source rewriting (preprocess.augment_annotations) turns a compiling text into a
   non-compiling one."""
@@ -651,6 +668,12 @@ def judge(src, r, stats=None):
       # CPython itself fails with a resource error (e.g. RecursionError on a 3000-term sum); same error from pytype
       return "not-explorable:cpython-resource-limit", []
     stage = "escape" if st == "raise" else "escape-while-printing"
+    if r["exc"] == "RecursionError" and ast_depth(seen) > 100:
+      # one root cause (pytype's recursive AST/bytecode passes on a deeply nested source CPython still compiles),
+      # but the frame in which the limit is hit first varies with the nesting depth: name the cause, not the frame
+      return stage, [(f"{stage}:RecursionError:deeply-nested-source",
+                      f"RecursionError escapes io.check_or_generate_pyi on a source whose AST is {ast_depth(seen)} levels deep "
+                      f"(CPython compiles it; first hit in {r.get('pytype_frame')})")]
     return stage, [(f"{stage}:{r['exc']}:{r.get('pytype_frame')}",
                     f"{r['exc']} escapes io.check_or_generate_pyi ({r.get('msg', '')[:120]!r}; innermost pytype frame {r.get('pytype_frame')})")]
   errs = r["errors"]
